@@ -57,6 +57,18 @@ Definition swap64 (v : N) : N :=
      (N.shiftr (N.land v 71776119061217280) 40))
      (N.shiftr (N.land v 18374686479671623680) 56))%N.
 
+(* The operand of a swap macro is an object of an integer type T (bits wide, signed or not) holding the
+   64-bit pattern v converted to T.  [operand] is its value as the 64-bit two's complement pattern the
+   macro sees after the conversion to uintN_t / the usual promotions: v truncated to the width of T and
+   sign- or zero-extended.  (Repaired macros: the operand is converted to uintN_t before any shift.) *)
+Definition operand (bits : N) (signed : bool) (v : N) : N :=
+  (let t := v mod 2 ^ bits in
+   if signed && (2 ^ (bits - 1) <=? t) then t + (w64 - 2 ^ bits) else t)%N.
+
+(* what an integer object of the given width sees when it consumes the value r of the macro *)
+Definition as_int64 (r : N) : Z :=
+  (if (r <? 9223372036854775808)%N then Z.of_N r else Z.of_N r - 18446744073709551616)%Z.
+
 Local Open Scope Z_scope.
 
 Definition zlen (s : list Z) : Z := Z.of_nat (length s).
@@ -87,10 +99,13 @@ Fixpoint digits (b : Z) (s : list Z) (acc : Z) : Z * list Z :=
   | [] => (acc, [])
   end.
 
-(* common front end of the strtol family: (negative?, magnitude, end offset).
+(* the bases the strtol family accepts *)
+Definition base_ok (base : Z) : bool := (base =? 0) || ((2 <=? base) && (base <=? 36)).
+
+(* common front end of the strtol family for an accepted base: (negative?, magnitude, end offset).
    End offset 0 = "no conversion".  "0x" not followed by a hex digit converts
    the "0" and stops at the 'x' (glibc). *)
-Definition strto_core (base : Z) (s : list Z) : bool * Z * nat :=
+Definition strto_core_v (base : Z) (s : list Z) : bool * Z * nat :=
   let s1 := skip_ws s in
   let c := nth 0 s1 0 in                       (* reading the terminator gives 0 *)
   let neg := c =? 45 in
@@ -103,6 +118,11 @@ Definition strto_core (base : Z) (s : list Z) : bool * Z * nat :=
   if (length rest =? length s3)%nat
   then (if pre then (false, 0, (length s - length s3 - 1)%nat) else (false, 0, 0%nat))
   else (neg, mag, (length s - length rest)%nat).
+
+(* glibc with any other base: EINVAL, result 0, *endptr NOT written (end offset 0 stands for "endptr
+   still has the value it had before the call", which the repaired wrappers never look at) *)
+Definition strto_core (base : Z) (s : list Z) : bool * Z * nat :=
+  if base_ok base then strto_core_v base s else (false, 0, 0%nat).
 
 (* signed conversion with limits lo..hi : (value, end offset, ERANGE?) *)
 Definition strtos (lo hi : Z) (base : Z) (s : list Z) : Z * nat * bool :=
@@ -234,6 +254,7 @@ Definition has_minus (s : list Z) : bool :=
 
 (* muggle_str_toi (repaired: range checks no longer in the else-if chain) *)
 Definition toi (base : Z) (s : list Z) : option Z :=
+  if negb (base_ok base) then None else               (* repaired: invalid base refused *)
   let '(ret, e, er) := strtol_model base s in
   if (e =? 0)%nat then None
   else if negb (tail_ok s e) then None
@@ -243,6 +264,7 @@ Definition toi (base : Z) (s : list Z) : option Z :=
 
 (* muggle_str_tol / muggle_str_toll (repaired: limits rejected only with ERANGE) *)
 Definition tol (base : Z) (s : list Z) : option Z :=
+  if negb (base_ok base) then None else               (* repaired: invalid base refused *)
   let '(ret, e, er) := strtol_model base s in
   if (e =? 0)%nat then None
   else if negb (tail_ok s e) then None
@@ -252,6 +274,7 @@ Definition toll := tol.
 
 (* muggle_str_tou (repaired: ERANGE / UINT_MAX check, negative numerals rejected) *)
 Definition tou (base : Z) (s : list Z) : option Z :=
+  if negb (base_ok base) then None else               (* repaired: invalid base refused *)
   let '(ret, e, er) := strtoul_model base s in
   if (e =? 0)%nat then None
   else if negb (tail_ok s e) then None
@@ -261,6 +284,7 @@ Definition tou (base : Z) (s : list Z) : option Z :=
 
 (* muggle_str_toul / muggle_str_toull (repaired likewise) *)
 Definition toul (base : Z) (s : list Z) : option Z :=
+  if negb (base_ok base) then None else               (* repaired: invalid base refused *)
   let '(ret, e, er) := strtoul_model base s in
   if (e =? 0)%nat then None
   else if negb (tail_ok s e) then None
@@ -270,13 +294,31 @@ Definition toul (base : Z) (s : list Z) : option Z :=
 Definition toull := toul.
 
 (* muggle_str_tof/tod/told: wrapper logic over an abstract libc result
-   (consumed characters, result is +-infinity?, ERANGE?)  (repaired: overflow is
-   isinf && ERANGE, checked also after trailing blanks and for negative values) *)
-Definition tofloat (s : list Z) (consumed : nat) (is_inf er : bool) : bool :=
+   (consumed characters, ERANGE?)  (repaired: EVERY range error the strtod family reports is a failure -
+   overflow to an infinity, underflow to zero, and a subnormal result that lost precision; checked also
+   after trailing blanks and for negative values) *)
+Definition tofloat (s : list Z) (consumed : nat) (er : bool) : bool :=
   if (consumed =? 0)%nat then false
   else if negb (tail_ok s consumed) then false
-  else if is_inf && er then false
+  else if er then false
   else true.
+
+(* ---- NULL arguments (str.c checks them first): None = a NULL pointer ---- *)
+Definition startswith_c (s p : option (list Z)) : bool :=
+  match s, p with Some s, Some p => startswith s p | _, _ => false end.
+Definition endswith_c (s p : option (list Z)) : bool :=
+  match s, p with Some s, Some p => endswith s p | _, _ => false end.
+Definition lstrip_idx_c (s : option (list Z)) : Z :=
+  match s with Some s => lstrip_idx s | None => -1 end.
+Definition rstrip_idx_c (s : option (list Z)) : Z :=
+  match s with Some s => rstrip_idx s | None => -1 end.
+Definition str_find_c (s sub : option (list Z)) (start end_ : Z) : Z :=
+  match s, sub with Some s, Some sub => str_find s sub start end_ | _, _ => -1 end.
+Definition str_count_c (s sub : option (list Z)) (start end_ : Z) : Z :=
+  match s, sub with Some s, Some sub => str_count s sub start end_ | _, _ => 0 end.
+(* the parsers: str == NULL || pval == NULL -> 0 *)
+Definition parse_c {A} (f : list Z -> option A) (s : option (list Z)) (pval_null : bool) : option A :=
+  match s with Some s => if pval_null then None else f s | None => None end.
 
 (* ------------------------------------------------------------------ *)
 (* hex.c                                                               *)
@@ -509,8 +551,12 @@ Definition normpath (p : list Z) (size : Z) (m : buf) : Z * buf :=
     np_loop size cur 0 m.
 
 (* cwd = what muggle_os_curdir returned (a parameter); junk = the initial content
-   of the 1024-byte stack buffer full_path *)
-Definition abspath (cwd p : list Z) (size : Z) (junk : list Z) (m : buf) : Z * buf :=
+   of the 1024-byte stack buffer full_path.  [abspath_with J] is the function with the call of
+   muggle_path_join abstracted as J; [abspath] is its instance with the model's join (the model driver passes a
+   memoising wrapper of the same extracted function, so that the 1024-cell join is computed once per
+   (cwd, path) and not once per output size). *)
+Definition abspath_with (J : list Z -> list Z -> Z -> buf -> Z * buf)
+                        (cwd p : list Z) (size : Z) (junk : list Z) (m : buf) : Z * buf :=
   if size <=? 1 then (EINVAL, m)
   else if isabs p then
     if zlen p >? size - 1 then (EINVAL, m)
@@ -519,8 +565,11 @@ Definition abspath (cwd p : list Z) (size : Z) (junk : list Z) (m : buf) : Z * b
       let m := wr (size - 1) 0 m in                  (* repaired *)
       (0, m)
   else
-    let '(r, fb) := join cwd p MAX_PATH (mkbuf junk false) in
+    let '(r, fb) := J cwd p MAX_PATH (mkbuf junk false) in
     if negb (r =? 0) then (r, mkbuf (cells m) (oob m || oob fb))
     else
       let '(r2, m2) := normpath (cstr (cells fb)) size m in
       (r2, mkbuf (cells m2) (oob m2 || oob fb)).
+
+Definition abspath (cwd p : list Z) (size : Z) (junk : list Z) (m : buf) : Z * buf :=
+  abspath_with join cwd p size junk m.
